@@ -1768,6 +1768,736 @@ Proof.
 Qed.
 
 (* ------------------------------------------------------------------ *)
+(* (2') the header codec on what the encoder writes: headers_decode holds for
+   every name and filename *)
+
+(* ---- UTF-8: decoding inverts encoding on every encodable code point *)
+Lemma scalar_range c : scalar c = true ->
+  0 <= c < 1114112 /\ (c < 55296 \/ 57343 < c).
+Proof.
+  unfold scalar. intros H. apply andb_true_iff in H as [H H3].
+  apply andb_true_iff in H as [H1 H2]. apply Z.leb_le in H1. apply Z.ltb_lt in H2.
+  apply negb_true_iff, andb_false_iff in H3 as [H3|H3];
+    [apply Z.leb_gt in H3|apply Z.leb_gt in H3]; lia.
+Qed.
+
+Ltac btrue :=
+  repeat match goal with
+         | |- (_ && _) = true => apply andb_true_iff; split
+         | |- (_ <=? _) = true => apply Z.leb_le
+         | |- (_ <? _) = true => apply Z.ltb_lt
+         | |- (negb (_ =? _) || _) = true =>
+             apply orb_true_iff;
+             first [left; apply negb_true_iff, Z.eqb_neq; lia
+                   |right; apply Z.leb_le; lia]
+         end; try lia.
+
+Lemma utf8_decode_enc1 c r : scalar c = true ->
+  utf8_decode (utf8_enc1 c ++ r) = c :: utf8_decode r.
+Proof.
+  intros H. apply scalar_range in H as [Hr Hs]. unfold utf8_enc1.
+  destruct (c <? 128) eqn:E1.
+  { cbn [app utf8_decode]. rewrite E1. reflexivity. }
+  apply Z.ltb_ge in E1.
+  destruct (c <? 2048) eqn:E2.
+  { apply Z.ltb_lt in E2. cbn [app utf8_decode].
+    replace (192 + c / 64 <? 128) with false by (symmetry; apply Z.ltb_ge; lia).
+    replace ((194 <=? 192 + c / 64) && (192 + c / 64 <=? 223) &&
+             cont (128 + c mod 64)) with true
+      by (symmetry; unfold cont; btrue).
+    f_equal. lia. }
+  apply Z.ltb_ge in E2.
+  destruct (c <? 65536) eqn:E3.
+  { apply Z.ltb_lt in E3. cbn [app utf8_decode].
+    replace (224 + c / 4096 <? 128) with false by (symmetry; apply Z.ltb_ge; lia).
+    replace ((194 <=? 224 + c / 4096) && (224 + c / 4096 <=? 223) &&
+             cont (128 + (c / 64) mod 64)) with false.
+    2:{ symmetry. apply andb_false_iff. left. apply andb_false_iff. right.
+        apply Z.leb_gt. lia. }
+    match goal with |- (if ?b then _ else _) = _ => replace b with true end.
+    - f_equal. lia.
+    - symmetry. unfold cont. btrue. }
+  apply Z.ltb_ge in E3. cbn [app utf8_decode].
+  replace (240 + c / 262144 <? 128) with false by (symmetry; apply Z.ltb_ge; lia).
+  replace (240 + c / 262144 <=? 223) with false by (symmetry; apply Z.leb_gt; lia).
+  replace (240 + c / 262144 <=? 239) with false by (symmetry; apply Z.leb_gt; lia).
+  rewrite !andb_false_r. cbn [andb].
+  match goal with |- (if ?b then _ else _) = _ => replace b with true end.
+  - f_equal. lia.
+  - symmetry. unfold cont. btrue.
+Qed.
+
+Lemma utf8_roundtrip s : forallb scalar s = true ->
+  utf8_decode (utf8_encode s) = s.
+Proof.
+  induction s as [|c s IH]; intros H; [reflexivity|].
+  cbn [forallb] in H. apply andb_true_iff in H as [Hc Hs].
+  change (utf8_encode (c :: s)) with (utf8_enc1 c ++ utf8_encode s).
+  rewrite utf8_decode_enc1 by exact Hc. rewrite IH by exact Hs. reflexivity.
+Qed.
+
+Lemma not_in_b (x : Z) l : existsb (Z.eqb x) l = false -> ~ In x l.
+Proof.
+  intros H Hi. assert (existsb (Z.eqb x) l = true).
+  { apply existsb_exists. exists x. split; [exact Hi | apply Z.eqb_refl]. }
+  congruence.
+Qed.
+
+(* ---- find / slices *)
+Lemma find_from_hit0 c : forall m r i, 0 <= i -> ~ In c m ->
+  find_from c (m ++ c :: r) i 0 = i + len m.
+Proof.
+  induction m as [|x m IH]; intros r i Hi Hm; cbn [app find_from].
+  - replace (0 <=? i) with true by (symmetry; apply Z.leb_le; lia).
+    rewrite Z.eqb_refl. change (len (@nil Z)) with 0. cbn [andb]. lia.
+  - replace (x =? c) with false
+      by (symmetry; apply Z.eqb_neq; intros E; apply Hm; left; exact E).
+    rewrite andb_false_r. rewrite IH; [rewrite len_cons; lia|lia|].
+    intros I. apply Hm. right. exact I.
+Qed.
+Lemma find_hit0 c m r : ~ In c m -> find c (m ++ c :: r) 0 = len m.
+Proof. intros H. unfold find. rewrite find_from_hit0; [lia|lia|exact H]. Qed.
+
+Lemma slice_to_app p q : slice_to (p ++ q) (len p) = p.
+Proof.
+  unfold slice_to, len. rewrite Nat2Z.id.
+  induction p as [|x p IH]; cbn [List.length app firstn].
+  - destruct q; reflexivity.
+  - rewrite IH. reflexivity.
+Qed.
+Lemma slice_from_app p q : slice_from (p ++ q) (len p) = q.
+Proof.
+  unfold slice_from, len. rewrite Nat2Z.id.
+  induction p as [|x p IH]; cbn [List.length app skipn]; [reflexivity|exact IH].
+Qed.
+Lemma slice_to_all s e : len s <= e -> slice_to s e = s.
+Proof. unfold slice_to, len. intros H. apply firstn_all2. lia. Qed.
+Lemma slice_from_all s e : len s <= e -> slice_from s e = [].
+Proof. unfold slice_from, len. intros H. apply skipn_all2. lia. Qed.
+
+(* ---- the scanner of _parseparam *)
+Definition semi_or_end (r : list Z) : Prop := r = [] \/ exists r', r = 59 :: r'.
+(* neither a semicolon nor a double quote *)
+Definition plainc (c : Z) : bool := negb (c =? 59) && negb (c =? 34).
+
+Lemma scan_stop r e : semi_or_end r -> scan_end r false e = e.
+Proof. intros [->|[r' ->]]; reflexivity. Qed.
+
+Lemma scan_plain : forall k t e, forallb plainc k = true ->
+  scan_end (k ++ t) false e = scan_end t false (e + len k).
+Proof.
+  induction k as [|c k IH]; intros t e H; cbn [app].
+  - change (len (@nil Z)) with 0. f_equal. lia.
+  - cbn [forallb] in H. apply andb_true_iff in H as [Hc Hk].
+    unfold plainc in Hc. apply andb_true_iff in Hc as [H59 H34].
+    apply negb_true_iff in H59, H34.
+    cbn [scan_end andb]. rewrite H34, H59. cbn [andb]. rewrite IH by exact Hk.
+    rewrite len_cons. f_equal. lia.
+Qed.
+
+Lemma scan_quote t q e : scan_end (34 :: t) q e = scan_end t (negb q) (e + 1).
+Proof.
+  cbn [scan_end]. change (34 =? 92) with false. rewrite andb_false_r.
+  reflexivity.
+Qed.
+
+Lemma scan_escaped : forall x t e,
+  scan_end (quote_esc x ++ t) true e = scan_end t true (e + len (quote_esc x)).
+Proof.
+  unfold quote_esc.
+  induction x as [|c x IH]; intros t e.
+  - cbn [flat_map app]. change (len (@nil Z)) with 0. f_equal. lia.
+  - cbn [flat_map]. rewrite <- app_assoc, len_app.
+    destruct (c =? 92) eqn:E1; [|destruct (c =? 34) eqn:E2].
+    + cbn [app scan_end]. change (92 =? 92) with true. cbn [andb].
+      rewrite IH. f_equal. change (len [92; 92]) with 2. lia.
+    + cbn [app scan_end]. change (92 =? 92) with true. cbn [andb].
+      rewrite IH. f_equal. change (len [92; 34]) with 2. lia.
+    + cbn [app scan_end]. rewrite E1, E2. cbn [andb negb].
+      rewrite andb_false_r. rewrite IH. f_equal. change (len [c]) with 1. lia.
+Qed.
+
+(* a text without any semicolon is scanned to its end (or one further, after
+   a final backslash inside quotes), whatever its quotes and backslashes *)
+Lemma scan_no_semi : forall n t q e, (List.length t <= n)%nat ->
+  existsb (Z.eqb 59) t = false -> e + len t <= scan_end t q e.
+Proof.
+  induction n as [|n IH]; intros t q e Hn H.
+  - destruct t; [cbn [scan_end]; change (len (@nil Z)) with 0; lia|cbn [List.length] in Hn; lia].
+  - destruct t as [|c r]; [cbn [scan_end]; change (len (@nil Z)) with 0; lia|].
+    cbn [List.length] in Hn. cbn [existsb] in H.
+    apply orb_false_iff in H as [Hc Hr]. rewrite Z.eqb_sym in Hc.
+    cbn [scan_end]. rewrite len_cons. rewrite Hc. cbn [andb].
+    destruct (q && (c =? 92)).
+    + destruct r as [|d r'].
+      * change (len (@nil Z)) with 0. lia.
+      * cbn [existsb] in Hr. apply orb_false_iff in Hr as [_ Hr'].
+        cbn [List.length] in Hn. rewrite len_cons.
+        pose proof (IH r' q (e + 2) ltac:(lia) Hr'). lia.
+    + destruct (c =? 34).
+      * pose proof (IH r (negb q) (e + 1) ltac:(lia) Hr). lia.
+      * pose proof (IH r q (e + 1) ltac:(lia) Hr). lia.
+Qed.
+
+(* ---- _parseparam on a sequence of segments *)
+Definition seg_stops (b : list Z) : Prop :=
+  forall rest, semi_or_end rest -> scan_end (b ++ rest) false 0 = len b.
+Definition segs_str (B : list (list Z)) : list Z := flat_map (cons 59) B.
+
+Lemma segs_str_semi B : semi_or_end (segs_str B).
+Proof. destruct B; [left; reflexivity|right; eexists; reflexivity]. Qed.
+
+Lemma parseparam_segs : forall B fuel, Forall seg_stops B ->
+  (List.length (segs_str B) < fuel)%nat ->
+  parseparam_fuel fuel (segs_str B) = map strip_u B.
+Proof.
+  induction B as [|b B IH]; intros fuel Hok Hf.
+  - destruct fuel; reflexivity.
+  - inversion Hok as [|b' B' Hb Hok']; subst.
+    destruct fuel as [|f]; [lia|].
+    change (segs_str (b :: B)) with (59 :: b ++ segs_str B) in *.
+    cbn [parseparam_fuel]. rewrite Z.eqb_refl. cbv zeta.
+    rewrite (Hb (segs_str B) (segs_str_semi B)).
+    rewrite slice_to_app, slice_from_app. cbn [map]. f_equal.
+    apply IH; [exact Hok'|].
+    cbn [List.length] in Hf. rewrite app_length in Hf. lia.
+Qed.
+
+Lemma plain_stops v : forallb plainc v = true -> seg_stops v.
+Proof.
+  intros H rest Hr. rewrite scan_plain by exact H.
+  rewrite scan_stop by exact Hr. lia.
+Qed.
+
+(* key="escaped value": the scan passes the key, enters the quoted string,
+   passes the escaped value, whatever it is, and leaves the quoted string *)
+Lemma quoted_stops k x : forallb plainc k = true ->
+  seg_stops (k ++ 34 :: quote_esc x ++ [34]).
+Proof.
+  intros Hk rest Hr.
+  replace ((k ++ 34 :: quote_esc x ++ [34]) ++ rest)
+    with (k ++ 34 :: quote_esc x ++ 34 :: rest) by (lnorm; reflexivity).
+  rewrite scan_plain by exact Hk. rewrite scan_quote. cbn [negb].
+  rewrite scan_escaped, scan_quote. cbn [negb]. rewrite scan_stop by exact Hr.
+  rewrite len_app, len_cons, len_app. change (len [34]) with 1. lia.
+Qed.
+
+(* ---- the escaping and its inverse *)
+Definition esc1 (c : Z) : list Z :=
+  if c =? 92 then [92; 92] else if c =? 34 then [92; 34] else [c].
+Definition escq (c : Z) : list Z := if c =? 34 then [92; 34] else [c].
+
+Lemma replace2_other a b rep c r :
+  c <> a -> replace2 a b rep (c :: r) = c :: replace2 a b rep r.
+Proof.
+  intros H. destruct r as [|d r']; [reflexivity|].
+  change (replace2 a b rep (c :: d :: r'))
+    with (if (c =? a) && (d =? b) then rep ++ replace2 a b rep r'
+          else c :: replace2 a b rep (d :: r')).
+  replace (c =? a) with false by (symmetry; apply Z.eqb_neq; exact H).
+  reflexivity.
+Qed.
+Lemma replace2_nomatch a b rep r :
+  hd 0 r <> b -> replace2 a b rep (a :: r) = a :: replace2 a b rep r.
+Proof.
+  intros H. destruct r as [|d r']; [reflexivity|]. cbn [hd] in H.
+  change (replace2 a b rep (a :: d :: r'))
+    with (if (a =? a) && (d =? b) then rep ++ replace2 a b rep r'
+          else a :: replace2 a b rep (d :: r')).
+  replace (d =? b) with false by (symmetry; apply Z.eqb_neq; exact H).
+  rewrite andb_false_r. reflexivity.
+Qed.
+Lemma replace2_match a b rep r :
+  replace2 a b rep (a :: b :: r) = rep ++ replace2 a b rep r.
+Proof.
+  change (replace2 a b rep (a :: b :: r))
+    with (if (a =? a) && (b =? b) then rep ++ replace2 a b rep r
+          else a :: replace2 a b rep (b :: r)).
+  rewrite !Z.eqb_refl. reflexivity.
+Qed.
+
+Lemma unescape_step1 x :
+  replace2 92 92 [92] (flat_map esc1 x) = flat_map escq x.
+Proof.
+  induction x as [|c x IH]; [reflexivity|].
+  cbn [flat_map]. unfold esc1 at 1, escq at 1.
+  destruct (c =? 92) eqn:E1.
+  - apply Z.eqb_eq in E1. subst c. change (92 =? 34) with false.
+    cbn [app]. rewrite replace2_match, IH. reflexivity.
+  - apply Z.eqb_neq in E1. destruct (c =? 34) eqn:E2.
+    + cbn [app]. rewrite replace2_nomatch by (cbn [hd]; lia).
+      rewrite replace2_other by lia. rewrite IH. reflexivity.
+    + cbn [app]. rewrite replace2_other by exact E1. rewrite IH. reflexivity.
+Qed.
+Lemma escq_head x : hd 0 (flat_map escq x) <> 34.
+Proof.
+  destruct x as [|c x]; cbn [flat_map hd]; [lia|].
+  unfold escq. destruct (c =? 34) eqn:E; cbn [app hd]; [lia|].
+  apply Z.eqb_neq. exact E.
+Qed.
+Lemma unescape_step2 x : replace2 92 34 [34] (flat_map escq x) = x.
+Proof.
+  induction x as [|c x IH]; [reflexivity|].
+  cbn [flat_map]. unfold escq at 1. destruct (c =? 34) eqn:E2.
+  - apply Z.eqb_eq in E2. subst c. cbn [app].
+    rewrite replace2_match, IH. reflexivity.
+  - apply Z.eqb_neq in E2. cbn [app].
+    destruct (Z.eq_dec c 92) as [->|E1].
+    + rewrite replace2_nomatch by apply escq_head. rewrite IH. reflexivity.
+    + rewrite replace2_other by exact E1. rewrite IH. reflexivity.
+Qed.
+Lemma unescape_escape x :
+  replace2 92 34 [34] (replace2 92 92 [92] (quote_esc x)) = x.
+Proof.
+  change (quote_esc x) with (flat_map esc1 x).
+  rewrite unescape_step1. apply unescape_step2.
+Qed.
+
+Lemma unquote_quoted x : unquote (34 :: quote_esc x ++ [34]) = x.
+Proof.
+  unfold unquote. cbn [hd tl].
+  replace (2 <=? len (34 :: quote_esc x ++ [34])) with true.
+  2:{ symmetry. apply Z.leb_le. rewrite len_cons, len_app.
+      pose proof (len_nonneg (quote_esc x)). change (len [34]) with 1. lia. }
+  change (34 :: quote_esc x ++ [34]) with ((34 :: quote_esc x) ++ [34]) at 1.
+  rewrite last_last. rewrite removelast_last. cbn [Z.eqb Pos.eqb andb].
+  apply unescape_escape.
+Qed.
+
+(* ---- str.strip() on what is written *)
+Lemma strip_u_ends s : is_ws_u (hd 0 s) = false -> is_ws_u (last s 0) = false ->
+  strip_u s = s.
+Proof.
+  intros Hh Hl. unfold strip_u, strip_by.
+  assert (R : rstrip_by is_ws_u s = s).
+  { destruct s as [|c s]; [reflexivity|].
+    destruct (@exists_last _ (c :: s) ltac:(discriminate)) as (x & d & E).
+    rewrite E in *. rewrite last_last in Hl.
+    replace (x ++ [d]) with (x ++ [d] ++ []) by (rewrite app_nil_r; reflexivity).
+    rewrite rstrip_app_ws by (exact Hl || reflexivity).
+    reflexivity. }
+  rewrite R. destruct s as [|c s]; [reflexivity|]. cbn [hd] in Hh.
+  cbn [lstrip_by]. rewrite Hh. reflexivity.
+Qed.
+
+Lemma strip_u_seg s : is_ws_u (hd 0 s) = false -> is_ws_u (last s 0) = false ->
+  strip_u (32 :: s) = s.
+Proof.
+  intros Hh Hl. unfold strip_u, strip_by.
+  destruct s as [|c s]; [reflexivity|].
+  destruct (@exists_last _ (c :: s) ltac:(discriminate)) as (x & d & E).
+  rewrite E in *. rewrite last_last in Hl.
+  replace (32 :: x ++ [d]) with ((32 :: x) ++ [d] ++ [])
+    by (rewrite app_nil_r; reflexivity).
+  rewrite rstrip_app_ws by (exact Hl || reflexivity).
+  cbn [app lstrip_by]. change (is_ws_u 32) with true. cbn iota.
+  destruct x as [|y x]; cbn [app hd] in *; cbn [lstrip_by]; rewrite Hh; reflexivity.
+Qed.
+
+Lemma last_quoted (k E : list Z) : last (k ++ 34 :: E ++ [34]) 0 = 34.
+Proof.
+  replace (k ++ 34 :: E ++ [34]) with ((k ++ 34 :: E) ++ [34]) by (lnorm; reflexivity).
+  apply last_last.
+Qed.
+
+(* ---- the body of the for loop of parse_header on key="escaped value" *)
+Lemma header_param_quoted k x :
+  existsb (Z.eqb 61) k = false -> strip_u k = k -> lower k = k ->
+  header_param (k ++ 61 :: 34 :: quote_esc x ++ [34]) = [(k, x)].
+Proof.
+  intros H61 Hs Hl. unfold header_param.
+  rewrite find_hit0 by (apply not_in_b; exact H61).
+  pose proof (len_nonneg k).
+  replace (0 <=? len k) with true by (symmetry; apply Z.leb_le; lia).
+  rewrite slice_to_app, Hs, Hl.
+  replace (k ++ 61 :: 34 :: quote_esc x ++ [34])
+    with ((k ++ [61]) ++ 34 :: quote_esc x ++ [34]) by (lnorm; reflexivity).
+  replace (len k + 1) with (len (k ++ [61]))
+    by (rewrite len_app; change (len [61]) with 1; lia).
+  rewrite slice_from_app.
+  rewrite strip_u_ends; [rewrite unquote_quoted; reflexivity|reflexivity|].
+  change (34 :: quote_esc x ++ [34]) with ([] ++ 34 :: quote_esc x ++ [34]).
+  rewrite last_quoted. reflexivity.
+Qed.
+
+(* ---- parse_header on a Content-Disposition value as the encoder writes it *)
+Definition cd_value (n : list Z) (f : option (list Z)) : list Z :=
+  s2l "form-data; name=""" ++ quote_esc n ++ [34]
+  ++ match f with
+     | Some f => s2l "; filename=""" ++ quote_esc f ++ [34]
+     | None => []
+     end.
+
+Lemma parse_header_cd n f :
+  parse_header (cd_value n f)
+  = (s2l "form-data",
+     (s2l "name", n) :: match f with Some f => [(s2l "filename", f)] | None => [] end).
+Proof.
+  unfold parse_header, parseparam.
+  assert (E : 59 :: cd_value n f = segs_str
+            (s2l "form-data" :: (s2l " name=" ++ 34 :: quote_esc n ++ [34]) ::
+             match f with
+             | Some f => [s2l " filename=" ++ 34 :: quote_esc f ++ [34]]
+             | None => []
+             end)).
+  { unfold cd_value, segs_str. destruct f; cbn [flat_map s2l]; lnorm;
+      rewrite ?app_nil_r; reflexivity. }
+  rewrite E. rewrite parseparam_segs; [| |lia].
+  - cbn [map]. change (strip_u (s2l "form-data")) with (s2l "form-data").
+    f_equal. cbn [flat_map].
+    change (s2l " name=" ++ 34 :: quote_esc n ++ [34])
+      with (32 :: s2l "name" ++ 61 :: 34 :: quote_esc n ++ [34]).
+    rewrite strip_u_seg; [|reflexivity|].
+    2:{ change (s2l "name" ++ 61 :: 34 :: quote_esc n ++ [34])
+          with (s2l "name=" ++ 34 :: quote_esc n ++ [34]).
+        rewrite last_quoted. reflexivity. }
+    rewrite header_param_quoted by reflexivity.
+    destruct f as [f|]; [|reflexivity].
+    cbn [map flat_map].
+    change (s2l " filename=" ++ 34 :: quote_esc f ++ [34])
+      with (32 :: s2l "filename" ++ 61 :: 34 :: quote_esc f ++ [34]).
+    rewrite strip_u_seg; [|reflexivity|].
+    2:{ change (s2l "filename" ++ 61 :: 34 :: quote_esc f ++ [34])
+          with (s2l "filename=" ++ 34 :: quote_esc f ++ [34]).
+        rewrite last_quoted. reflexivity. }
+    rewrite header_param_quoted by reflexivity. reflexivity.
+  - constructor; [apply plain_stops; reflexivity|].
+    constructor; [apply quoted_stops; reflexivity|].
+    destruct f; [constructor; [apply quoted_stops; reflexivity|constructor]
+                |constructor].
+Qed.
+
+(* ... and on a value without any semicolon (a bare media type) *)
+Lemma parse_header_plain t : existsb (Z.eqb 59) t = false ->
+  parse_header t = (strip_u t, []).
+Proof.
+  intros H. unfold parse_header, parseparam.
+  cbn [List.length parseparam_fuel]. rewrite Z.eqb_refl. cbv zeta.
+  pose proof (scan_no_semi (List.length t) t false 0 ltac:(lia) H) as He.
+  rewrite slice_to_all, slice_from_all by lia.
+  destruct t; reflexivity.
+Qed.
+
+(* ---- FeedParser on the header block the encoder writes *)
+Definition noeol (l : list Z) : bool := forallb (fun c => negb (is_crlf_c c)) l.
+
+Lemma splitlines_line : forall l cur rest, noeol l = true ->
+  splitlines cur (l ++ 13 :: 10 :: rest)
+  = rv (10 :: 13 :: rev l ++ cur) :: splitlines [] rest.
+Proof.
+  induction l as [|c l IH]; intros cur rest H.
+  - cbn [app rev splitlines starts_lf]. change (13 =? 10) with false.
+    rewrite Z.eqb_refl. cbn [orb andb negb]. reflexivity.
+  - cbn [noeol forallb] in H. apply andb_true_iff in H as [Hc Hl].
+    apply negb_true_iff in Hc. unfold is_crlf_c in Hc.
+    apply orb_false_iff in Hc as [H13 H10].
+    cbn [app splitlines]. rewrite H10, H13. cbn [orb andb].
+    rewrite IH by exact Hl. cbn [rev]. rewrite <- app_assoc. reflexivity.
+Qed.
+
+Lemma rv_line l : rv (10 :: 13 :: rev l ++ []) = l ++ [13; 10].
+Proof.
+  rewrite rv_rev, app_nil_r. cbn [rev]. rewrite rev_involutive. lnorm.
+  reflexivity.
+Qed.
+
+Lemma hdr_text_noeol s : hdr_text s = true -> noeol s = true.
+Proof.
+  unfold hdr_text, noeol. induction s as [|c s IH]; [reflexivity|].
+  cbn [forallb]. intros H. apply andb_true_iff in H as [Hc Hs].
+  rewrite IH by exact Hs. unfold hdr_char in Hc.
+  apply andb_true_iff in Hc as [Hc H13]. apply andb_true_iff in Hc as [_ H10].
+  apply negb_true_iff in H10, H13. unfold is_crlf_c. rewrite H10, H13. reflexivity.
+Qed.
+
+Lemma hdr_text_scalar s : hdr_text s = true -> forallb scalar s = true.
+Proof.
+  unfold hdr_text. induction s as [|c s IH]; [reflexivity|].
+  cbn [forallb]. intros H. apply andb_true_iff in H as [Hc Hs].
+  rewrite IH by exact Hs. unfold hdr_char in Hc.
+  apply andb_true_iff in Hc as [Hc _]. apply andb_true_iff in Hc as [Hc _].
+  rewrite Hc. reflexivity.
+Qed.
+
+Lemma forallb_quote_esc (P : Z -> bool) s :
+  P 92 = true -> P 34 = true -> forallb P s = true ->
+  forallb P (quote_esc s) = true.
+Proof.
+  intros H92 H34. unfold quote_esc. induction s as [|c s IH]; [reflexivity|].
+  cbn [forallb flat_map]. intros H. apply andb_true_iff in H as [Hc Hs].
+  rewrite forallb_app, IH by exact Hs. rewrite andb_true_r.
+  destruct (c =? 92); [cbn [forallb]; rewrite H92; reflexivity|].
+  destruct (c =? 34); [cbn [forallb]; rewrite H92, H34; reflexivity|].
+  cbn [forallb]. rewrite Hc. reflexivity.
+Qed.
+
+(* the value of Content-Disposition has encodable characters and no line end *)
+Lemma cd_value_ok (P : Z -> bool) n f :
+  forallb P (s2l "form-data; name=""") = true ->
+  forallb P (s2l "; filename=""") = true ->
+  P 92 = true -> P 34 = true -> forallb P n = true ->
+  match f with Some f => forallb P f = true | None => True end ->
+  forallb P (cd_value n f) = true.
+Proof.
+  intros Hc1 Hc2 H92 H34 Hn Hf. unfold cd_value.
+  rewrite !forallb_app. rewrite (forallb_quote_esc P n H92 H34 Hn), Hc1.
+  cbn [forallb]. rewrite H34.
+  destruct f as [f|]; [|reflexivity].
+  rewrite !forallb_app. rewrite (forallb_quote_esc P f H92 H34 Hf), Hc2.
+  cbn [forallb]. rewrite H34. reflexivity.
+Qed.
+
+Definition cd_text (p : part) : list Z :=
+  s2l "Content-Disposition: " ++ cd_value (p_name p) (p_filename p).
+Definition ct_text (t : list Z) : list Z := s2l "Content-Type: " ++ t.
+
+Lemma header_text_lines p :
+  part_header_text p
+  = cd_text p ++ 13 :: 10 ::
+    match p_ctype p with
+    | Some t => ct_text t ++ 13 :: 10 :: [13; 10]
+    | None => [13; 10]
+    end.
+Proof.
+  unfold part_header_text, cd_text, cd_value, ct_text, crlf.
+  destruct (p_filename p), (p_ctype p); lnorm; reflexivity.
+Qed.
+
+Lemma parse_hlines_cd v t cur :
+  parse_hlines ((s2l "Content-Disposition: " ++ v) :: t) cur
+  = match parse_hlines t (Some (s2l "Content-Disposition",
+                                lstrip_by is_blank_c v)) with
+    | Some rest => Some (close_hdr cur ++ rest)
+    | None => None
+    end.
+Proof. reflexivity. Qed.
+
+Lemma parse_hlines_ct v t cur :
+  parse_hlines ((s2l "Content-Type: " ++ v) :: t) cur
+  = match parse_hlines t (Some (s2l "Content-Type", lstrip_by is_blank_c v)) with
+    | Some rest => Some (close_hdr cur ++ rest)
+    | None => None
+    end.
+Proof. reflexivity. Qed.
+
+Lemma header_line_cd v : header_line (s2l "Content-Disposition: " ++ v) = true.
+Proof. reflexivity. Qed.
+Lemma header_line_ct v : header_line (s2l "Content-Type: " ++ v) = true.
+Proof. reflexivity. Qed.
+
+Lemma lstrip_head ws : forall s,
+  match lstrip_by ws s with c :: _ => ws c = false | [] => True end.
+Proof.
+  induction s as [|c s IH]; [exact I|]. cbn [lstrip_by].
+  destruct (ws c) eqn:E; [exact IH|exact E].
+Qed.
+
+Lemma is_blank_ws_u c : is_blank_c c = true -> is_ws_u c = true.
+Proof.
+  intros H. apply is_blank_ws in H. unfold is_ws_u. rewrite H. reflexivity.
+Qed.
+
+(* a media type without blanks at its ends keeps them behind "Content-Type:" *)
+Lemma lstrip_blank_stripped t r : strip_u t = t -> is_blank_c (hd 0 r) = false ->
+  lstrip_by is_blank_c (t ++ r) = t ++ r.
+Proof.
+  intros Hs Hr. destruct t as [|c t].
+  - cbn [app]. destruct r as [|d r]; [reflexivity|]. cbn [hd] in Hr.
+    cbn [lstrip_by]. rewrite Hr. reflexivity.
+  - pose proof (lstrip_head is_ws_u (rstrip_by is_ws_u (c :: t))) as H.
+    unfold strip_u, strip_by in Hs. rewrite Hs in H.
+    cbn [app lstrip_by]. destruct (is_blank_c c) eqn:E; [|reflexivity].
+    apply is_blank_ws_u in E. congruence.
+Qed.
+
+Lemma rstrip_crlf v : noeol v = true -> rstrip_by is_crlf_c (v ++ [13; 10]) = v.
+Proof.
+  intros H. destruct v as [|c v]; [reflexivity|].
+  destruct (@exists_last _ (c :: v) ltac:(discriminate)) as (x & d & E).
+  rewrite E in *. unfold noeol in H. rewrite forallb_app in H.
+  apply andb_true_iff in H as [_ H]. cbn [forallb] in H.
+  rewrite andb_true_r in H. apply negb_true_iff in H.
+  rewrite <- app_assoc. apply rstrip_app_ws; [exact H|reflexivity].
+Qed.
+
+Lemma lstrip_blank_cd n f r :
+  lstrip_by is_blank_c (cd_value n f ++ r) = cd_value n f ++ r.
+Proof. unfold cd_value. reflexivity. Qed.
+
+Lemma hdr_get_cd v t :
+  hdr_get ((s2l "Content-Disposition", v) :: t) (s2l "content-disposition") = Some v.
+Proof. reflexivity. Qed.
+Lemma hdr_get_ct1 v w t :
+  hdr_get ((s2l "Content-Disposition", v) :: (s2l "Content-Type", w) :: t)
+          (s2l "content-type") = Some w.
+Proof. reflexivity. Qed.
+Lemma hdr_get_ct0 v :
+  hdr_get [(s2l "Content-Disposition", v)] (s2l "content-type") = None.
+Proof. reflexivity. Qed.
+
+Lemma ctype_ok_facts t : ctype_ok t = true ->
+  hdr_text t = true /\ existsb (Z.eqb 59) t = false /\ strip_u t = t /\
+  lz_eqb t (s2l "application/x-www-form-urlencoded") = false /\
+  lz_eqb (slice_to t 10) (s2l "multipart/") = false.
+Proof.
+  unfold ctype_ok. intros H.
+  apply andb_true_iff in H as [H H5]. apply andb_true_iff in H as [H H4].
+  apply andb_true_iff in H as [H H3]. apply andb_true_iff in H as [H1 H2].
+  apply negb_true_iff in H2, H4, H5. apply lz_eqb_eq in H3. auto.
+Qed.
+
+(* The header codec gives back name, filename and media type of EVERY part
+   whose header texts can be written at all: any name and filename (blanks,
+   quotes, semicolons, backslashes -- also at the end, also in front of the
+   filename parameter --, controls, non-ASCII) that UTF-8 can encode and
+   that has no CR or LF. *)
+Theorem headers_decode_wf b p :
+  b <> [] -> hdr_text (p_name p) = true ->
+  match p_filename p with Some f => hdr_text f = true | None => True end ->
+  match p_ctype p with Some t => ctype_ok t = true | None => True end ->
+  headers_decode b p.
+Proof.
+  intros Hb Hn Hf Ht. unfold headers_decode, hdr_bytes.
+  assert (Hcds : forallb scalar (cd_value (p_name p) (p_filename p)) = true).
+  { apply cd_value_ok; try reflexivity; [apply hdr_text_scalar; exact Hn|].
+    destruct (p_filename p); [apply hdr_text_scalar; exact Hf|exact I]. }
+  assert (Hcde : noeol (cd_value (p_name p) (p_filename p)) = true).
+  { apply cd_value_ok; try reflexivity; [apply hdr_text_noeol; exact Hn|].
+    destruct (p_filename p); [apply hdr_text_noeol; exact Hf|exact I]. }
+  rewrite utf8_roundtrip.
+  2:{ rewrite header_text_lines. unfold cd_text. rewrite !forallb_app, Hcds.
+      cbn [forallb]. destruct (p_ctype p) as [t|]; [|reflexivity].
+      apply ctype_ok_facts in Ht as (Ht & _). unfold ct_text.
+      rewrite !forallb_app, (hdr_text_scalar t Ht). reflexivity. }
+  unfold part_headers. rewrite header_text_lines.
+  rewrite splitlines_line.
+  2:{ unfold cd_text, noeol. rewrite forallb_app. fold (noeol (cd_value (p_name p) (p_filename p))).
+      rewrite Hcde. reflexivity. }
+  rewrite rv_line. unfold cd_text. rewrite <- app_assoc.
+  destruct (p_ctype p) as [t|] eqn:Ect.
+  - apply ctype_ok_facts in Ht as (Ht & H59 & Hst & Hu & Hm).
+    rewrite splitlines_line.
+    2:{ unfold ct_text, noeol. rewrite forallb_app. fold (noeol t).
+        rewrite (hdr_text_noeol t Ht). reflexivity. }
+    rewrite rv_line. unfold ct_text. rewrite <- app_assoc.
+    change (splitlines [] [13; 10]) with [[13; 10]].
+    cbn [take_header_lines]. rewrite header_line_cd, header_line_ct.
+    change (header_line [13; 10]) with false. cbn iota.
+    rewrite parse_hlines_cd, parse_hlines_ct. cbn [parse_hlines close_hdr app].
+    rewrite lstrip_blank_cd, rstrip_crlf by exact Hcde.
+    rewrite lstrip_blank_stripped by (exact Hst || reflexivity).
+    rewrite rstrip_crlf by (apply hdr_text_noeol; exact Ht).
+    eexists. split; [reflexivity|].
+    unfold part_meta. rewrite hdr_get_cd, hdr_get_ct1, parse_header_cd.
+    rewrite parse_header_plain by exact H59. cbn [fst snd]. rewrite Hst.
+    unfold expected_type. rewrite Ect.
+    split; [|split; assumption].
+    destruct (p_filename p); reflexivity.
+  - change (splitlines [] [13; 10]) with [[13; 10]].
+    cbn [take_header_lines]. rewrite header_line_cd.
+    change (header_line [13; 10]) with false. cbn iota.
+    rewrite parse_hlines_cd. cbn [parse_hlines close_hdr app].
+    rewrite lstrip_blank_cd, rstrip_crlf by exact Hcde.
+    eexists. split; [reflexivity|].
+    unfold part_meta. rewrite hdr_get_cd, hdr_get_ct0, parse_header_cd.
+    cbn [fst snd]. rewrite (is_nil_false b Hb).
+    unfold expected_type. rewrite Ect.
+    split; [|split; reflexivity].
+    destruct (p_filename p); reflexivity.
+Qed.
+
+(* the same without the vocabulary of the model *)
+Corollary headers_decode_meta b p :
+  b <> [] -> hdr_text (p_name p) = true ->
+  match p_filename p with Some f => hdr_text f = true | None => True end ->
+  match p_ctype p with Some t => ctype_ok t = true | None => True end ->
+  exists hs,
+    part_headers (utf8_decode (utf8_encode (part_header_text p))) = Some hs /\
+    part_meta hs b = (Some (p_name p), p_filename p, expected_type p).
+Proof.
+  intros Hb Hn Hf Ht.
+  destruct (headers_decode_wf b p Hb Hn Hf Ht) as (hs & H1 & H2 & _).
+  exists hs. split; assumption.
+Qed.
+
+Lemma hdr_text_no_lf s : hdr_text s = true -> ~ In 10 s.
+Proof.
+  intros H. apply hdr_text_noeol in H. unfold noeol in H.
+  rewrite forallb_forall in H. intros Hi. specialize (H 10 Hi). discriminate.
+Qed.
+
+(* a part with writable header texts satisfies the hypotheses of the round
+   trip *)
+Lemma part_wf_ok b p : b <> [] -> part_wf b p -> part_ok b p.
+Proof.
+  intros Hb (Hn & Hf & Ht & Hc). unfold part_ok.
+  split; [apply hdr_text_no_lf; exact Hn|].
+  split; [intros f E; rewrite E in Hf; apply hdr_text_no_lf; exact Hf|].
+  split; [intros t E; rewrite E in Ht; apply ctype_ok_facts in Ht as (Ht & _);
+          apply hdr_text_no_lf; exact Ht|].
+  split; [apply headers_decode_wf; assumption|exact Hc].
+Qed.
+
+Lemma boundary_not_nil b : boundary_ok b = true -> b <> [].
+Proof.
+  intros Hb. destruct (boundary_ok_facts b Hb) as (_ & (b0 & c & -> & _) & _).
+  destruct b0; discriminate.
+Qed.
+
+Lemma parts_wf_ok b ps : boundary_ok b = true ->
+  Forall (part_wf b) ps -> Forall (part_ok b) ps.
+Proof.
+  intros Hb H. apply Forall_impl with (2 := H). intros p.
+  apply part_wf_ok. apply boundary_not_nil. exact Hb.
+Qed.
+
+(* (2) and (3) with the header codec discharged *)
+Theorem multipart_roundtrip_wf :
+  forall (St : Type) (rl : Z -> St -> bytes * St) (rem : St -> bytes)
+         (L : Z -> Prop) (P : St -> Prop),
+    good_reader St rl rem L P ->
+  forall (maxline : Z) (b : bytes) (p : part) (ps : list part) (final : bool)
+         (ctv : list Z) (clen : Z) (s : St) (fuel : nat),
+    L maxline -> L (-1) ->
+    boundary_ok b = true -> len b + 7 <= maxline ->
+    ctype_names ctv b ->
+    Forall (part_wf b) (p :: ps) ->
+    P s -> rem s = encode b (p :: ps) final ->
+    (clen < 0 \/ clen = len (rem s)) ->
+    len (rem s) < Z.of_nat fuel ->
+    exists fields s',
+      parse St rl maxline fuel (Some ctv) clen s = Ok (fields, s') /\
+      Forall2 field_matches (p :: ps) fields /\ rem s' = [].
+Proof.
+  intros St rl rem L P G maxline b p ps final ctv clen s fuel HLm HL1 Hb Hmax
+         Hct Hall. apply multipart_roundtrip with (L := L) (P := P); auto.
+  apply parts_wf_ok; assumption.
+Qed.
+
+Theorem reader_independent_wf :
+  forall (St1 St2 : Type) rl1 rl2 rem1 rem2 L1 L2 P1 P2,
+    good_reader St1 rl1 rem1 L1 P1 -> good_reader St2 rl2 rem2 L2 P2 ->
+  forall maxline b p ps final ctv clen s1 s2 fuel,
+    L1 maxline -> L1 (-1) -> L2 maxline -> L2 (-1) ->
+    boundary_ok b = true -> len b + 7 <= maxline ->
+    ctype_names ctv b -> Forall (part_wf b) (p :: ps) ->
+    P1 s1 -> P2 s2 ->
+    rem1 s1 = encode b (p :: ps) final -> rem2 s2 = encode b (p :: ps) final ->
+    (clen < 0 \/ clen = len (encode b (p :: ps) final)) ->
+    len (encode b (p :: ps) final) < Z.of_nat fuel ->
+    exists fs1 fs2 t1 t2,
+      parse St1 rl1 maxline fuel (Some ctv) clen s1 = Ok (fs1, t1) /\
+      parse St2 rl2 maxline fuel (Some ctv) clen s2 = Ok (fs2, t2) /\
+      Forall2 same_field fs1 fs2.
+Proof.
+  intros St1 St2 rl1 rl2 rem1 rem2 L1 L2 P1 P2 G1 G2 maxline b p ps final ctv
+         clen s1 s2 fuel Ha Hb Hc Hd Hbo Hmax Hct Hall.
+  apply reader_independent with (L1 := L1) (L2 := L2) (P1 := P1) (P2 := P2)
+                                (rem1 := rem1) (rem2 := rem2); auto.
+  apply parts_wf_ok; assumption.
+Qed.
+
+(* ------------------------------------------------------------------ *)
 (* examples and refutations *)
 
 Definition ex_b : bytes := s2l "XyZ".
@@ -1775,7 +2505,8 @@ Definition ex_parts : list part :=
   [mkpart (s2l "a ""b""; c\d") None None (s2l "plain");
    mkpart (s2l "f") (Some (s2l "x y;.bin")) (Some (s2l "application/octet-stream"))
           ([13; 10] ++ s2l "--XyZ-" ++ [13; 10; 0; 255; 13] ++ s2l "--XyZ" ++ [13]);
-   mkpart [233; 21517] None None []].
+   mkpart [233; 21517] None None [];
+   mkpart (s2l "trail\") (Some (s2l "C:\dir\")) None (s2l "x")].
 Definition ex_ctv : list Z := s2l "multipart/form-data; boundary=XyZ".
 
 Fixpoint occursb (p s : list Z) : bool :=
@@ -1817,64 +2548,31 @@ Lemma not_occurs_no_delim b c :
   ~ occurs (10 :: dashb b) (10 :: c) -> no_delim_line b c.
 Proof. intros H x y E. exfalso. apply H. exists x, y. exact E. Qed.
 
-Lemma not_in_b (x : Z) l : existsb (Z.eqb x) l = false -> ~ In x l.
-Proof.
-  intros H Hi. assert (existsb (Z.eqb x) l = true).
-  { apply existsb_exists. exists x. split; [exact Hi | apply Z.eqb_refl]. }
-  congruence.
-Qed.
-
 (* the hypotheses of the theorems hold for a non-trivial input *)
-Lemma ex_part_ok p :
-  existsb (Z.eqb 10) (p_name p) = false ->
-  match p_filename p with Some f => existsb (Z.eqb 10) f | None => false end
-    = false ->
-  match p_ctype p with Some f => existsb (Z.eqb 10) f | None => false end
-    = false ->
-  match part_headers (utf8_decode (hdr_bytes p)) with
-  | Some hs =>
-      match part_meta hs ex_b with
-      | (Some n, fn, t) =>
-          lz_eqb n (p_name p) &&
-          match fn, p_filename p with
-          | Some a, Some a' => lz_eqb a a'
-          | None, None => true
-          | _, _ => false
-          end && lz_eqb t (expected_type p)
-      | _ => false
-      end
-  | None => false
-  end = true ->
-  lz_eqb (expected_type p) (s2l "application/x-www-form-urlencoded") = false ->
-  lz_eqb (slice_to (expected_type p) 10) (s2l "multipart/") = false ->
-  no_delim_lineb ex_b (p_content p) = true ->
-  part_ok ex_b p.
-Proof.
-  intros H1 H2 H3 H4 H5 H6 H7. unfold part_ok. split; [|split; [|split; [|split]]].
-  - apply not_in_b. exact H1.
-  - intros f E. rewrite E in H2. apply not_in_b. exact H2.
-  - intros f E. rewrite E in H3. apply not_in_b. exact H3.
-  - unfold headers_decode.
-    destruct (part_headers (utf8_decode (hdr_bytes p))) as [hs|]; [|discriminate].
-    exists hs. split; [reflexivity|]. split; [|split; assumption].
-    destruct (part_meta hs ex_b) as [[[n|] fn] t]; [|discriminate].
-    apply andb_true_iff in H4 as [H4 Ht]. apply andb_true_iff in H4 as [Hn Hf].
-    apply lz_eqb_eq in Hn, Ht. subst n t.
-    destruct fn as [a|], (p_filename p) as [a'|]; try discriminate.
-    + apply lz_eqb_eq in Hf. subst a'. reflexivity.
-    + reflexivity.
-  - apply no_delim_lineb_sound. exact H7.
-Qed.
-
 Example ex_hypotheses :
   boundary_ok ex_b = true /\ ctype_names ex_ctv ex_b /\
-  Forall (part_ok ex_b) ex_parts.
+  Forall (part_wf ex_b) ex_parts.
 Proof.
   split; [reflexivity|]. split; [repeat split; vm_compute; reflexivity|].
   unfold ex_parts.
-  repeat (apply Forall_cons; [apply ex_part_ok; vm_compute; reflexivity|]).
+  repeat (apply Forall_cons;
+          [unfold part_wf; cbn [p_name p_filename p_ctype p_content];
+           repeat split; try (vm_compute; reflexivity);
+           apply no_delim_lineb_sound; vm_compute; reflexivity|]).
   apply Forall_nil.
 Qed.
+
+(* the witness of the former finding param-backslash-before-next-param: a
+   name ending in a backslash in front of a filename parameter (it used to
+   come back as name = trail"; filename="f.txt without a filename) *)
+Example headers_decode_backslash_witness :
+  headers_decode (s2l "b") (mkpart (s2l "trail\") (Some (s2l "f.txt")) None []).
+Proof. apply headers_decode_wf; [discriminate|reflexivity|reflexivity|exact I]. Qed.
+
+Example parse_header_backslash_witness :
+  parse_header (s2l "form-data; name=""trail\\""; filename=""f.txt""")
+  = (s2l "form-data", [(s2l "name", s2l "trail\"); (s2l "filename", s2l "f.txt")]).
+Proof. vm_compute. reflexivity. Qed.
 
 (* ... and the parser indeed returns the parts, through both readers *)
 Example ex_roundtrip_lf :
@@ -1945,16 +2643,4 @@ Proof.
           s2l "Content-Disposition: form-data; name=""a""" ++ [13; 10; 13; 10] ++
           s2l "x" ++ [10] ++ s2l "--b--" ++ [13; 10]).
   vm_compute. discriminate.
-Qed.
-
-(* (c) the header codec is a hypothesis of the round trip for a reason: a
-   name that ends in a backslash in front of a filename parameter does not
-   come back (the C18 finding param-backslash-before-next-param) *)
-Theorem headers_decode_backslash_refuted :
-  exists b p, ~ In 10 (p_name p) /\ ~ headers_decode b p.
-Proof.
-  exists (s2l "b"), (mkpart (s2l "trail\") (Some (s2l "f.txt")) None []).
-  split; [vm_compute; intuition discriminate|].
-  intros (hs & H1 & H2 & _). vm_compute in H1. injection H1 as <-.
-  vm_compute in H2. discriminate.
 Qed.
